@@ -107,7 +107,7 @@ func c09(c *ev.Ctx) {
 			ctx, cancel = child, func() { pc(); cc() }
 		}
 		defer cancel()
-		evr, err := eng.New(lp.script, eng.Options{Ctx: ctx, NoOptimize: j.noOpt, Budget: j.k + c09Bound + 10})
+		evr, err := eng.New(lp.script, eng.Options{Ctx: ctx, NoOptimize: j.noOpt, Budget: j.k + c09Bound + 10, PrePrepare: i%3 == 2})
 		if err != nil {
 			c.Violation(id, "prepare", map[string]interface{}{"summary": "Prepare failed: " + err.Error(), "script": lp.script})
 			return
@@ -176,7 +176,7 @@ func c09(c *ev.Ctx) {
 				default:
 					ctx, cancel = context.WithTimeout(context.Background(), -time.Second)
 				}
-				evr, err := eng.New(lp.script, eng.Options{Ctx: ctx, NoOptimize: noOpt, Budget: 100000})
+				evr, err := eng.New(lp.script, eng.Options{Ctx: ctx, NoOptimize: noOpt, Budget: 100000, PrePrepare: (li+variant)%2 == 0})
 				if err != nil {
 					cancel()
 					continue
